@@ -259,13 +259,13 @@ func init() {
 
 	// ------------------------------------------------------------ C08
 	registerSteered(steeredProfile{
-		prop: "C08", quick: 480, thorough: 9600,
+		prop: "C08", quick: 960, thorough: 19200,
 		rule: "steered programs with Set/Del/Merge under an order-sensitive, nil-revealing operator (fold = (existing==nil?\"∅\":existing)+\"|\"+operand; PartialMerge refuses), operands spread over batches, sections, persisted segments, partial/full compactions, a custom lower level, child collections and reopens; after every step Get and iterator values are compared with the model's left fold. distinct_nontrivial = distinct (config class|shape|park) triples at which merged keys were compared.",
 		oracles: eng.Oracles{Content: true, Reopen: true},
 		gen: func(r *eng.Rng, idx int, th bool) *eng.Program {
 			cfg := eng.GenConfig(r, pickBacking(r, "none", "store", "store", "store", "custom"), true)
 			gp := eng.GenParams{MinBatches: 3, MaxBatches: 16, NKeys: 4 + r.Intn(6), Park: true, Reopen: true, Merge: true,
-				Children: cfg.Backing != "custom" && r.Chance(1, 3), Idle: true, QuietPct: 30}
+				Children: cfg.Backing != "custom" && r.Chance(1, 3), Idle: true, QuietPct: 30, CrossBias: true}
 			if idx%5 == 2 {
 				eng.PartialCompactionProfile(r, &cfg, &gp)
 			}
@@ -314,13 +314,13 @@ func init() {
 
 	// ------------------------------------------------------------ C13
 	registerSteered(steeredProfile{
-		prop: "C13", quick: 480, thorough: 9600,
+		prop: "C13", quick: 1440, thorough: 28800,
 		rule: "steered programs (Set/Del/Merge, top-level keys) against a map-backed application lower level that applies each `higher` snapshot by the documented protocol (iterate IncludeDeletions+SkipLowerLevel, resolve Merge with higher.Get); LowerLevelUpdate failure plans (single, bursts, alternating) fail before applying; after every step the lower level must equal the reference content of a non-decreasing prefix and the collection snapshot the full reference content; after draining the lower level must equal the full reference content. distinct_nontrivial = distinct prefix gaps accepted by the lower level plus (config class|shape|park) triples.",
 		oracles: eng.Oracles{Content: true, Lower: true},
 		gen: func(r *eng.Rng, idx int, th bool) *eng.Program {
 			merge := r.Chance(2, 3)
 			cfg := eng.GenConfig(r, "custom", merge)
-			gp := eng.GenParams{MinBatches: 4, MaxBatches: 18, NKeys: 4 + r.Intn(8), Park: r.Chance(2, 3), Merge: merge, Idle: true, QuietPct: 25}
+			gp := eng.GenParams{MinBatches: 4, MaxBatches: 18, NKeys: 4 + r.Intn(8), Park: r.Chance(2, 3), Merge: merge, Idle: true, QuietPct: 25, CrossBias: true}
 			p := eng.GenProgram(r, "C13", cfg, gp)
 			p.Steps = append(p.Steps, eng.Step{K: "drain"}, eng.Step{K: "drain"}, eng.Step{K: "lowerfinal"})
 			return p
